@@ -593,6 +593,10 @@ func genTmplCase(r *Rng, out *outFiles) {
 	if c02 == "" {
 		c02 = escapeProbe(r, cfg)
 	}
+	if c15 == "" && c16 != "" {
+		// C15: "with and without a shared template object per goroutine" every execution equals the one run alone
+		c15 = "an execution on a reused template object differs from the same execution run alone: " + c16
+	}
 	out.count("soup")
 	out.put(renderCase(cfg, ts.Files, name, runs), line, verdict("C16", c16), verdict("C05", c05), verdict("C12", c12), verdict("C02", c02), verdict("C08", c08), verdict("C15", c15), verdict("C07", c07))
 }
